@@ -31,8 +31,9 @@ STUBS = ["ModelCoefficients(...) inside from_np_arrays -> model_construct twin (
 MODELS_USED = ["symnp.clip (ITE)", "EXP uninterpreted + axioms"]
 ASSUMPTIONS = ["floats modelled as reals; witnesses replayed in float64",
                "pydantic-core validation/serialisation and CPython json float repr are outside the solver's reach: they are exercised concretely at each path witness only",
-               "hourly and CalTRACK-hourly families, settings profiles: outside the claim (sklearn/statsmodels object graphs)"]
-EXPECTED_REGIMES = ["T below T_min", "T above T_max", "api round trip ran"]
+               "hourly family: one hand-written stored document per variant (scaling method, solar, route), concrete; fitting an hourly model does not run in the pinned environment",
+               "CalTRACK-hourly family: outside the claim (statsmodels/patsy object graphs)"]
+EXPECTED_REGIMES = ["T below T_min", "T above T_max", "api round trip ran", "hourly model with two time-series features (solar)"]
 
 IDS = {
     "hdd_tidd_cdd_smooth": ["hdd_bp", "hdd_beta", "hdd_k", "cdd_bp", "cdd_beta", "cdd_k", "intercept"],
@@ -59,6 +60,7 @@ def cases(tier, seed):
     out = []
     for s in SHAPES:
         out += [f"{s}/closed", f"{s}/roundtrip", f"{s}/segindep"]
+    out += ["hourly/stored"]
     return out
 
 
@@ -214,8 +216,77 @@ REPLAY["api"] = replay_api
 
 # ---------------------------------------------------------------- run
 
+# ---------------------------------------------------------------- hourly family (stored document, concrete)
+
+def hourly_roundtrip(scaling, solar, route):
+    """a stored hourly model (document in the to_dict() layout) is loaded, re-serialised through `route`, loaded again:
+    document, metadata and predictions must survive.  Concrete (pydantic, json, sklearn)."""
+    import logging
+    logging.disable(logging.CRITICAL)
+    from opendsm.eemeter.models.hourly.model import HourlyModel
+    from . import hourlyref as H
+    doc = H.document(scaling=scaling, solar=solar, annotated=True)
+    src = json.loads(json.dumps(doc))
+    pr = []
+    m1 = HourlyModel.from_dict(json.loads(json.dumps(doc)))
+    try:
+        if route == "json":
+            text = m1.to_json()
+            again = json.loads(text)
+            m2 = HourlyModel.from_json(text)
+        else:
+            again = json.loads(json.dumps(m1.to_dict(), default=str))
+            m2 = HourlyModel.from_dict(m1.to_dict())
+    except Exception as ex:
+        return [f"a model loaded from its stored form cannot be written/loaded again ({route}): {type(ex).__name__}: {str(ex)[:140]}"]
+    diff = [k for k in src if k != "settings" and again.get(k) != src[k]]
+    if diff:
+        pr.append(f"re-serialised document differs from the stored one in {diff}")
+    if str(m2.baseline_timezone) != "US/Pacific" or [w.qualified_name for w in m2.warnings] != ["eemeter.w"] or [w.qualified_name for w in m2.disqualification] != ["eemeter.x"]:
+        pr.append("timezone / warnings / disqualification not kept")
+    for span in (("2021-03-12", 4), ("2021-11-05", 4)):
+        p1 = m1.predict(H.reporting(*span, ghi=solar), ignore_disqualification=True)
+        p2 = m2.predict(H.reporting(*span, ghi=solar), ignore_disqualification=True)
+        if list(p1.index) != list(p2.index) or p1["predicted"].to_numpy().tobytes() != p2["predicted"].to_numpy().tobytes():
+            a, b = p1["predicted"].to_numpy(), p2["predicted"].to_numpy()
+            n = int((a != b).sum()) if a.shape == b.shape else -1
+            pr.append(f"reloaded model ({route}) predicts differently: {n} of {len(a)} hours from {span[0]}, mean {float(np.nanmean(a)):.4f} vs {float(np.nanmean(b)):.4f}")
+            break
+    return pr
+
+
+def replay_hourly(inp):
+    pr = hourly_roundtrip(inp["scaling"], inp["solar"], inp["route"])
+    return bool(pr), "; ".join(pr)
+
+
+REPLAY["hourly"] = replay_hourly
+
+
+def run_hourly(case):
+    from . import dailyframe as F
+    case.inputs = []
+
+    def run():
+        cfg = dict(scaling=F.choose("scaling", ["standardscaler", "robustscaler"]), solar=F.choose("solar", [False, True]), route=F.choose("route", ["json", "dict"]))
+        return cfg, hourly_roundtrip(**cfg)
+
+    paths = case.explore(run)
+    for p in paths:
+        if p.outcome != "ret":
+            case.rep["harness_errors"].append(f"hourly round trip raised {p.value!r}")
+            continue
+        cfg, pr = p.value
+        rp = ("hourly", (lambda c: lambda mdl: dict(c))(cfg))
+        case.prove(p, not pr, "hourly model: stored document, metadata and predictions survive load -> write -> load", replay=rp)
+        case.regime("hourly model with two time-series features (solar)", cfg["solar"])
+    case.sample(dict(family="hourly", variants=len(paths)))
+
+
 def run_case(case: Case, name: str):
     shape, mode = name.split("/")
+    if shape == "hourly":
+        return run_hourly(case)
     if mode == "closed":
         return run_closed(case, shape)
     if mode == "roundtrip":
